@@ -524,9 +524,12 @@ func (si *stmtInliner) predCall(e ast.Expr) (*ast.CallExpr, bool) {
 // expandIf dissolves boolean helpers that stand as conjuncts of an if condition by threading their returns to
 // the branches (`return E` becomes `if E { goto next }; goto else`), so that the branch a rule looks at is
 // still controlled directly by the comparisons the helper makes, not by a merged boolean.
-//   if c1 && f(a) && c3 { A } else { B }
+//
+//	if c1 && f(a) && c3 { A } else { B }
+//
 // becomes
-//   if !(c1) { goto F }; { params := a; body(f) with threaded returns }; N: if !(c3) { goto F }; { A }; goto E; F: { B }; E: ;
+//
+//	if !(c1) { goto F }; { params := a; body(f) with threaded returns }; N: if !(c3) { goto F }; { A }; goto E; F: { B }; E: ;
 func (si *stmtInliner) expandIf(is *ast.IfStmt) []ast.Stmt {
 	if is.Init != nil {
 		return nil
